@@ -95,7 +95,7 @@ def walk(ctx, rep, label, depth, max_stack, budget, rng, observers, found, check
         n += 1
         # distinct = distinct behaviours; non-trivial = a block was opened or a computation started
         ctx.count(1, distinct_key=(label, sd.history(path, len(path) - 1)), nontrivial=any(a.startswith("Enter") or a.startswith("Start") for a, _, _ in path))
-        record(found, path, o, observers)
+        record(found, path, o, observers, model=getattr(rep, "model_name", "3body"))
     ctx.part("graph_walk_%s" % label, states=len(nodes), edges=len(edges), edges_to_top_or_call=total, replayed=n, wall_s=round(time.time() - t0, 1))
     if order:
         u = order[min(len(order) - 1, 300)]
@@ -103,7 +103,7 @@ def walk(ctx, rep, label, depth, max_stack, budget, rng, observers, found, check
     return r, n
 
 
-def record(found, path, o, observers):
+def record(found, path, o, observers, model="3body"):
     for ob, idx, msg in o.fails:
         if ob == "Machinery":
             raise tlc.MachineryError(msg + " in " + sd.history(path, len(path) - 1))
@@ -113,7 +113,8 @@ def record(found, path, o, observers):
         h = sd.history(path, idx)
         cur = found.get(sig)
         if cur is None or (len(h.split(";")), h) < (len(cur["history"].split(";")), cur["history"]):
-            found[sig] = {"observer": ob, "history": h, "message": msg, "open_blocks": list(sig[1:-1])}
+            found[sig] = {"observer": ob, "history": h, "message": msg, "open_blocks": list(sig[1:-1]), "model": model,
+                          "path": tlc.to_jsonable([[a, g, st] for a, g, st in path[: idx + 1]])}
 
 
 def simulate(ctx, rep, label, n, depth, max_stack, observers, found, check_calls=True):
@@ -180,4 +181,21 @@ def run(ctx):
 
 
 def replay(ctx, path):
-    run(ctx)
+    """re-execute the stored behaviour of one reported violation on a real model"""
+    import json
+
+    with open(path) as f:
+        j = json.load(f)
+    d = j["detail"]
+    if "path" not in d:
+        return run(ctx)
+    steps = [tuple(x) for x in tlc.from_jsonable(d["path"])]
+    rep = SessionReplayer(False, ctx.seed % 1000 + 1, model=d.get("model", "3body"))
+    o = sd.execute(rep, steps)
+    ctx.count(len(steps), distinct_key=("replay", j["key"]))
+    ctx.count(1, distinct_key=("replay2", j["key"]))
+    ctx.cov["traces_validated_against_impl"] = 1
+    ctx.sample({"replayed": d["history"], "failures": [list(map(str, x)) for x in o.fails]})
+    ctx.cov["rule"] = "replay of one stored behaviour"
+    for ob, idx, msg in o.fails:
+        ctx.violation(j["key"] if ob == d["observer"] else "%s:%s" % (ob, sd.history(steps, idx)), {"observer": ob, "message": msg, "history": sd.history(steps, idx)})
